@@ -96,6 +96,20 @@ func genC03(seed uint64, idx int) *Plan {
 	} else if r.IntN(10) == 0 {
 		p.OuterSIDEmpty = true
 	}
+	if idx%5 == 0 {
+		// a legacy_version of the client's own choosing in the inner hello
+		p.LegacyVer = []uint16{0x0301, 0x0302, 0x0304, 0x0300}[(idx/5)%4]
+	}
+	if idx%6 == 0 {
+		// mixed-case host name: forwarded and reported as sent
+		b := []byte(p.InnerSNI)
+		for i := range b {
+			if b[i] >= 'a' && b[i] <= 'z' && r.IntN(2) == 0 {
+				b[i] -= 32
+			}
+		}
+		p.InnerSNI = string(b)
+	}
 	return &Plan{Kind: "script", Seed: seed, Script: p}
 }
 
@@ -333,7 +347,7 @@ func genC05(seed uint64, idx int) *Plan {
 	return &Plan{Kind: "script", Seed: seed, Script: p}
 }
 
-var c02Subs = []string{"ech-trailing", "wrong-key", "wrong-info", "wrong-id-ext", "wrong-suite-ext", "trunc-enc", "trunc-payload", "aad-not-zeroed", "unlisted-suite", "canonical-info"}
+var c02Subs = []string{"ech-trailing", "wrong-key", "wrong-info", "wrong-id-ext", "wrong-suite-ext", "trunc-enc", "trunc-payload", "aad-not-zeroed", "unlisted-suite", "canonical-info", "outer-zeros", "bad-enc"}
 
 func genC02(seed uint64, idx int, tier string) *Plan {
 	r := core.NewRand(seed, "plan")
